@@ -40,6 +40,15 @@ def t_catch_soft(n):
     return 'not raised'
 
 
+def t_catch_soft_then_sleep(n):
+    from billiard.exceptions import SoftTimeLimitExceeded
+    try:
+        time.sleep(n)
+    except SoftTimeLimitExceeded:
+        time.sleep(n)
+    return n
+
+
 def t_in_handler(n):
     try:
         raise ValueError('x')
@@ -144,6 +153,26 @@ def run_one(spec):
         res['census'] = census(pool, set(pids) | {p.pid for p in pool._pool})
         time.sleep(1.5)
         res['census_late'] = census(pool, set(pids) | {p.pid for p in pool._pool})
+    elif kind == 'terminate_after_signal':
+        # a worker that was sent a NON-fatal signal through terminate_job() and keeps running
+        pool = bp.Pool(spec.get('n', 2), threads=True)
+        pids = [p.pid for p in pool._pool]
+        owner = []
+        r = pool.apply_async(t_catch_soft_then_sleep, (30,), accept_callback=lambda pid, t: owner.append(pid))
+        deadline = time.time() + 5
+        while not owner and time.time() < deadline:
+            time.sleep(0.05)
+        time.sleep(0.3)
+        if owner:
+            pool.terminate_job(owner[0], spec.get('sig', int(signal.SIGUSR1)))
+        time.sleep(0.7)
+        res['owner_alive_before_terminate'] = alive(owner[0]) if owner else None
+        t1 = time.time()
+        pool.terminate()
+        res['terminate_s'] = round(time.time() - t1, 2)
+        res['census'] = census(pool, set(pids) | {p.pid for p in pool._pool})
+        time.sleep(1.5)
+        res['census_late'] = census(pool, set(pids) | {p.pid for p in pool._pool})
     elif kind == 'hard_timeout':
         pool = bp.Pool(spec.get('n', 1), timeout=spec.get('hard', 1), threads=True)
         pool.apply_async(t_pid, (0,)).get(timeout=10)
@@ -236,9 +265,38 @@ def main():
         spec = json.load(sys.stdin)
         limit = spec.get('watchdog', 60)
 
+        import faulthandler
+        childlog = '/tmp/rp_children_%d.txt' % os.getpid()
+        childfh = open(childlog, 'w')
+        # inherited by forked workers; SIGURG is not touched by billiard's reset_signals
+        faulthandler.register(signal.SIGURG, file=childfh, all_threads=True, chain=False)
+
         def watchdog():
             time.sleep(limit)
             stacks = ''
+            children = ''
+            try:
+                me = os.getpid()
+                kids = []
+                for d in os.listdir('/proc'):
+                    if d.isdigit():
+                        try:
+                            st = open('/proc/%s/stat' % d).read().split(') ')[-1].split()
+                            if int(st[1]) == me and st[0] != 'Z':
+                                kids.append(int(d))
+                        except (OSError, ValueError, IndexError):
+                            pass
+                for k in kids:
+                    try:
+                        childfh.write('\n=== child %d wchan=%s ===\n' % (k, open('/proc/%d/wchan' % k).read()))
+                        childfh.flush()
+                        os.kill(k, signal.SIGURG)
+                    except OSError:
+                        pass
+                time.sleep(0.7)
+                children = open(childlog).read()[-5000:]
+            except Exception as exc:      # noqa
+                children = 'child dump failed: %r' % (exc,)
             try:
                 import faulthandler
                 import tempfile
@@ -248,7 +306,7 @@ def main():
                     stacks = fh.read()[-6000:]
             except Exception:      # noqa
                 pass
-            sys.stdout.write('\n' + json.dumps(dict(kind=spec['kind'], spec=spec, hang=True, wall_s=limit, stacks=stacks)) + '\n')
+            sys.stdout.write('\n' + json.dumps(dict(kind=spec['kind'], spec=spec, hang=True, wall_s=limit, stacks=stacks, children=children)) + '\n')
             sys.stdout.flush()
             os.killpg(os.getpgid(0), signal.SIGKILL)
         threading.Thread(target=watchdog, daemon=True).start()
@@ -260,6 +318,10 @@ def main():
             out = dict(kind=spec['kind'], spec=spec, error='%s: %s' % (type(exc).__name__, exc))
         sys.stdout.write('\n' + json.dumps(out) + '\n')
         sys.stdout.flush()
+        try:
+            os.remove(childlog)
+        except OSError:
+            pass
         os._exit(0)
     specs = json.load(sys.stdin)
     results = []
